@@ -1,1 +1,14 @@
 import BddVerif.Props.C05
+#print axioms B.Props.C05.limit_spec
+#print axioms B.Props.C05.limit_spec_public
+#print axioms B.Props.C05.limit_some_iff
+#print axioms B.Props.C05.limit_none_iff
+#print axioms B.Props.C05.dry_limit
+#print axioms B.Props.C05.dry_none_iff
+#print axioms B.Props.C05.dry_nonempty
+#print axioms B.Props.C05.dry_count_ge
+#print axioms B.Props.C05.dry_run_spec
+#print axioms B.Props.C05.imp_consistent
+#print axioms B.Props.C05.implies_check
+#print axioms B.Props.C05.cmp_implies_spec
+#print axioms B.Props.C05.cmp_implies_vars
